@@ -185,7 +185,8 @@ impl<E: FieldElement> DeepCompositionPoly<E> {
 
         // set the coefficients of the DEEP composition polynomial
         self.coefficients = trace_poly;
-        assert_eq!(self.poly_size() - 2, self.degree());
+        // the degree is lower than poly_size - 2 for degenerate (e.g. constant) trace columns
+        assert!(self.degree() <= self.poly_size() - 2);
     }
 
     // CONSTRAINT POLYNOMIAL COMPOSITION
@@ -223,7 +224,8 @@ impl<E: FieldElement> DeepCompositionPoly<E> {
         for (i, poly) in column_polys.into_iter().enumerate() {
             mul_acc::<E, E>(&mut self.coefficients, &poly, self.cc.constraints[i]);
         }
-        assert_eq!(self.poly_size() - 2, self.degree());
+        // the degree is lower than poly_size - 2 for degenerate (e.g. constant) trace columns
+        assert!(self.degree() <= self.poly_size() - 2);
     }
 
     // LOW-DEGREE EXTENSION
